@@ -35,7 +35,7 @@ SURVEY_ALIAS = {
 }
 CHOICES_ALIAS = {"label": ["caption"], "name": ["value"], "list_name": ["list name"], "image": ["media::image"], "audio": ["media::audio"], "video": ["media::video"]}
 SETTINGS_ALIAS = {"form_id": ["id_string", "set_form_id"], "form_title": ["title", "set_form_title"]}
-KNOWN_SURVEY = set(SURVEY_ALIAS) | {"hint", "guidance_hint", "default", "trigger", "choice_filter", "parameters", "disabled", "required", "constraint"}
+KNOWN_SURVEY = set(SURVEY_ALIAS) | {"hint", "guidance_hint", "default", "trigger", "choice_filter", "parameters", "required", "constraint"}  # ("disabled" is not part of the spec: its header is matched literally)
 TYPE_ALIAS = {"select_one": ["select one", "select1"], "select_multiple": ["select all that apply"], "integer": ["int"], "image": ["photo"],
               "begin group": ["begin_group"], "end group": ["end_group"], "begin repeat": ["begin_repeat"], "end repeat": ["end_repeat"],
               "select_one_from_file": ["select one from file"], "select_multiple_from_file": ["select multiple from file"]}
@@ -44,7 +44,7 @@ FALSE = ["no", "No", "NO", "false", "False", "FALSE", "false()"]
 UNRELATED = ["notes", "_settings", "lookup_data", "Sheet3", "_choices", "README", "_entities", "calculations"]
 HELPER_RE = re.compile(r"(generated_note_name_|generated_table_list_label_|reserved_name_for_field_list_labels_)(\d+)")
 KINDS = ["header-case", "alias", "single-colon", "type-alias", "truth", "quotes", "spaces", "col-perm", "sheet-perm", "blank-rows", "extra-sheets",
-         "unknown-col", "sheet-case"]
+         "unknown-col", "sheet-case", "md-container"]
 
 
 @st.composite
@@ -58,6 +58,15 @@ def _cases(draw):
         form["nodes"].insert(g.integer(0, len(form["nodes"])), {"k": "q", "c": {"type": "note", "label": "unnamed note"}})
     if g.p("_", 0.2):
         form["nodes"].insert(g.integer(0, len(form["nodes"])), {"k": g.pick(["g", "r"]), "c": {"name": g.name("ug")}, "ch": [{"k": "q", "c": {"type": "text", "name": g.name(), "label": "in"}}]})
+    if g.lists and g.p("_", 0.15):
+        lst = g.pick(g.lists)
+        lst["rows"].append(dict(lst["rows"][0]))
+        form.setdefault("settings", {})["allow_choice_duplicates"] = g.pick(["yes", "true"])
+    if g.p("_", 0.15):
+        for n, _ in model.walk(form["nodes"]):
+            if n["k"] == "q" and g.p("_", 0.3):
+                n["c"]["disabled"] = g.pick(["no", "false"])
+        form["nodes"].append({"k": "x", "c": {"type": "text", "name": g.name("off"), "label": "off", "disabled": g.pick(["yes", "true"])}})
     kinds = [k for k in KINDS if g.p("_", 0.35)] or [g.pick(KINDS)]
     return {"form": form, "spec": {"seed": g.integer(0, 65535), "kinds": kinds}}
 
@@ -80,7 +89,7 @@ def case_noise(r, h):
     elif style == 2:
         base = "  " + base + " "
     elif style == 3 and "_" in base and ":" not in base:
-        base = base.replace("_", " ")
+        base = base.replace("_", " " if r.random() < 0.5 else "   ")
     if sep and r.random() < 0.5:
         sep = " :: "
     return base + sep + rest
@@ -142,6 +151,26 @@ def transform(wb, spec):
                     v = " " + v.replace(" ", "  ") + " "
                     done.add("spaces")
                 r[k] = v
+    if "truth" in kinds:
+        for i, r in enumerate(wb.get("settings") or []):
+            for k in ("allow_choice_duplicates", "omit_instanceID"):
+                if k in r:
+                    rr = rnd(seed, "sflag", k)
+                    if r[k] in TRUE:
+                        r[k] = rr.choice(TRUE)
+                        done.add("truth")
+                    elif r[k] in FALSE:
+                        r[k] = rr.choice(FALSE)
+                        done.add("truth")
+        for i, r in enumerate(wb.get("survey") or []):
+            if "disabled" in r:
+                rr = rnd(seed, "dis", i)
+                if r["disabled"] in TRUE:
+                    r["disabled"] = rr.choice(TRUE)
+                    done.add("truth")
+                elif r["disabled"] in FALSE:
+                    r["disabled"] = rr.choice(FALSE)
+                    done.add("truth")
     if "choices" in wb and "quotes" in kinds:
         for i, r in enumerate(wb["choices"]):
             for k in list(r):
@@ -169,8 +198,11 @@ def transform(wb, spec):
     # ':' instead of '::' -- only when no header needs '::' (namespaced tokens, bind/instance/body/media columns)
     if "single-colon" in kinds:
         allh = [h for sh in ("survey", "choices") if sh in wb for h in headers(sh)]
-        ok = all(h.count("::") <= 1 and ":" not in h.replace("::", "") and h.split("::")[0] not in ("bind", "instance", "body", "media", "attribute")
-                 for h in allh) and any("::" in h for h in allh) and not any("::" in h for h in headers("settings"))
+        def colon_ok(h):
+            toks = h.split("::")
+            # after the split, the only colon allowed inside a token is the one of a jr: name (pyxform re-joins 'jr' with the next token)
+            return all(":" not in t or t.strip().startswith("jr:") and t.count(":") == 1 for t in toks) and toks[0].strip() not in ("instance", "body", "media", "attribute")
+        ok = all(colon_ok(h) for h in allh) and any("::" in h for h in allh) and not any("::" in h for h in headers("settings"))
         if ok:
             for sh in ("survey", "choices"):
                 if sh in wb:
@@ -267,6 +299,37 @@ def to_xlsx(wb, sheet_case_seed=None):
     return buf.getvalue()
 
 
+def md_carriable(wb) -> bool:
+    for k, rows in wb.items():
+        if k == "sheet_names" or k.endswith("_header") or not isinstance(rows, list):
+            continue
+        for r in rows:
+            if not r:
+                return False
+            for v in r.values():
+                if not isinstance(v, str) or "\n" in v or "\r" in v or "\\" in v or v != v.strip() or not v.strip():
+                    return False
+    return True
+
+
+def wb_to_md(wb) -> str:
+    """render a workbook dict as a Markdown table (headers exactly as spelled in the *_header entry)"""
+    lines = []
+    names = wb.get("sheet_names") or [k for k in wb if not k.endswith("_header")]
+    for nm in names:
+        key = nm if nm in wb else nm.lower()
+        lines.append(f"| {nm} |")
+        if key in wb and isinstance(wb[key], list):
+            hs = list(wb[key + "_header"][0])
+            lines.append("| | " + " | ".join(hs) + " |")
+            for r in wb[key]:
+                lines.append("| | " + " | ".join(r.get(h, "").replace("|", "\\|") for h in hs) + " |")
+        else:
+            lines.append("| | note |")
+            lines.append("| | unrelated |")
+    return "\n".join(lines) + "\n"
+
+
 def canon_xform(xml, sort_model=True):
     root = xform.parse(xml)
     for tr in root.iter(q(XF, "itext")):
@@ -327,7 +390,12 @@ def _evaluate(case) -> Outcome:
     args = {k: v for k, v in form.get("args", {}).items() if k in ("form_name", "default_language")}
     var, done, smap, cmap = transform(wb, spec)
     use_xlsx = "sheet-case" in spec["kinds"]
-    if use_xlsx:
+    use_md = not use_xlsx and "md-container" in spec["kinds"] and "blank-rows" not in spec["kinds"] and md_carriable(wb) and md_carriable(var)
+    if use_md:
+        done.add("md-container")
+        s1, a = common.run_workbook(wb_to_md(wb), **args)
+        s2, b = common.run_workbook(wb_to_md(var), **args)
+    elif use_xlsx:
         try:
             a_in = to_xlsx(wb)
             b_in = to_xlsx(var, sheet_case_seed=spec["seed"])
